@@ -92,7 +92,7 @@ T = {
  "M-C01-3": ("C01", "set_digits: the signed 15/16 digit boundary copied from the unsigned one, so 16 signed digits get int16_t (num_traits/set_digits.h)",
              "scaled_integer over elastic_integer with Narrowest int8_t/int16_t and a result of exactly 16 digits (8x8 product, 15+15 sum), |result rep| >= 2^15", ["C01", "C05"]),
  "M-C02-3": ("C02", "vendored multi-limb back end: the remainder of uintwide_t::operator%= takes the sign of the divisor (ckormanyos/uintwide_t.h)",
-             "scaled_integer over a signed wide_integer<N> with N > 127 (multi-limb), operands of opposite sign, non-zero remainder", ["C02"]),
+             "scaled_integer over a signed wide_integer<N> with N > 127 (multi-limb), operands of opposite sign, non-zero remainder", ["C02", "C10"]),
  "M-C03-3": ("C03", "mixed-type wide_integer comparison aligns both reps in a common-width rep with the LEFT operand's signedness (wide_integer/custom_operator.h)",
              "two different wide_integer instantiations, unsigned left and wider signed right (uint32 vs int64 reps), negative right value", ["C03", "C12"]),
  "M-C05-3": ("C05", "from_value<elastic_integer<D, Narrowest>, Value> keeps the target's Narrowest instead of the value's signedness (elastic_integer/from_value.h)",
@@ -170,7 +170,7 @@ HIST = {
  "M-C14-3": "reported by C13's capacity facts (the capacity of the static buffer is C13's subject); C14's own rules stay silent",
  "M-C07-3": "missed at first: no pair of sub-int unsigned operands (the one class where promotion to int does not make the product fit) was in the quick matrix; (u16,u16), (i16,u16), (i16,i16) added",
  "M-C01-3": "reported by C05 (rep selection of elastic results), not by C01, whose elastic kernels use the default Narrowest",
- "M-C02-3": "NOT reported by any check: the change is inside the multi-limb back end (uintwide_t) of wide_integer<N>, N > 127; kernel equivalence covers reps up to 128 bits and multi-limb value semantics is the part declared out of reach (C10 not applicable, C01/C02 'not decided: multi-limb reps')",
+ "M-C02-3": "missed at first (inside the multi-limb back end, outside every kernel matrix); reported by C10 since the sign-discipline rule G2 (vlib/signflow.py: path rule over the four sign valuations of uintwide_t::operator/= and operator%=) was added; not by C02, whose kernels stop at 128-bit reps",
  "M-C03-3": "missed at first: the single-word wide_integer comparison kernels had no (unsigned, wider signed) pair; seven mixed pairs added",
  "M-C12-3": "missed at first by C12 (reported by C03): comparisons with a built-in operand of a wider type than the wrapper's rep added to C12",
  "M-C18-3": "missed at first: signedness-dispatch rule added (used_digits / leading_bits of a signed number must enter the signed algorithm, also for class-type reps)",
